@@ -66,6 +66,7 @@ fn run(ctx: &RunCtx) {
         configs: &gen_configs,
         filters,
         nontrivial: &|s| ["local", "local_function", "method_definition", "field_function_definition", "global_function_definition", "method_call", "math_sqrt"].iter().any(|k| s.contains_key(k)),
+        lua51_target: false,
     };
     common::run_behaviour(ctx, "programs", &spec);
 }
